@@ -7,8 +7,11 @@ import (
 	"math/big"
 	"runtime"
 	"sort"
+	"strings"
 	"sync"
 	"time"
+
+	"github.com/MinterTeam/minter-go-node/coreV2/types"
 )
 
 // Config bounds one run.
@@ -33,6 +36,7 @@ type Finding struct {
 	Original string   `json:"original"`
 	Mutated  string   `json:"mutated"`
 	Signers  []string `json:"signers"`
+	LockPub  string   `json:"lock_pub,omitempty"`
 	Detail   string   `json:"-"`
 }
 
@@ -56,6 +60,7 @@ type PerOrig struct {
 	MalleationsRejected int64            `json:"malleations_rejected"`
 	MalleationsAccepted int64            `json:"malleations_accepted"`
 	Rebind              int64            `json:"multisig_address_rebind_accepted,omitempty"`
+	RebindMembers       int64            `json:"multisig_member_list_rewrite_accepted,omitempty"`
 }
 
 // Stats is the result of a run.
@@ -71,6 +76,7 @@ type Stats struct {
 	ModelCanonRejected  int64 // independent reader: canonical+well typed, decoder: error
 	ModelCanonSamples   []string
 	Rebind              int64
+	RebindMembers       int64
 	ShortStrings        int64
 	ShortAccepted       int64
 	PairEvaluations     int64
@@ -91,15 +97,15 @@ type job struct {
 }
 
 type jobResult struct {
-	evals, accepted, rejDecode, rejSender, panics, modelCanonRej, rebind, pairEvals int64
-	malTried, malRej, malAcc, malAccNew                                             int64
-	shortN, shortAcc                                                                int64
-	panicSamples, modelSamples                                                      []string
-	samples                                                                         []interface{}
-	findings                                                                        map[string]*Finding
-	count                                                                           map[string]int
-	order                                                                           []string
-	done                                                                            bool
+	evals, accepted, rejDecode, rejSender, panics, modelCanonRej, rebind, rebindMembers, pairEvals int64
+	malTried, malRej, malAcc, malAccNew                                                            int64
+	shortN, shortAcc                                                                               int64
+	panicSamples, modelSamples                                                                     []string
+	samples                                                                                        []interface{}
+	findings                                                                                       map[string]*Finding
+	count                                                                                          map[string]int
+	order                                                                                          []string
+	done                                                                                           bool
 }
 
 type origCtx struct {
@@ -174,8 +180,11 @@ func (r *runner) try(oc *origCtx, res *jobResult, y []byte, edit string, pos int
 	viols := o.Viols
 	rel, rebind := Relate(oc.o.Bytes, y, &oc.ref, &o, oc.o.Signers)
 	viols = append(viols, rel...)
-	if rebind {
+	switch rebind {
+	case "address":
 		res.rebind++
+	case "members":
+		res.rebindMembers++
 	}
 	for _, v := range viols {
 		f := &Finding{Kind: oc.o.Kind, Rule: v.Rule, Edit: edit, Region: oc.l.Region(pos), Name: oc.o.Name, Original: hx(oc.o.Bytes), Mutated: hx(y), Detail: v.Detail}
@@ -193,7 +202,7 @@ func (r *runner) neighbour(oc *origCtx, res *jobResult, y []byte, edit string, p
 		res.accepted++
 		if len(res.samples) < 1 {
 			res.samples = append(res.samples, map[string]interface{}{"original": oc.o.Name, "edit": edit, "position": pos, "region": oc.l.Region(pos),
-				"verdict": fmt.Sprintf("accepted; same signed hash as the original: %v; recovered signers %v (honest %v); rules broken: %d", o.Hash == oc.ref.Hash, o.Signers, oc.o.Signers, nv), "bytes": hx(y)})
+				"verdict": fmt.Sprintf("accepted; same signed hash as the original: %v; recovered signers %s (honest %s); rules broken: %d", o.Hash == oc.ref.Hash, Addrs(o.Signers), Addrs(oc.o.Signers), nv), "bytes": hx(y)})
 		}
 	}
 }
@@ -433,6 +442,31 @@ func mustReject(name string) bool {
 func (r *runner) malleate(oc *origCtx, res *jobResult) {
 	x := oc.o.Bytes
 	seen := map[string]bool{}
+	if n := len(oc.l.Sigs); oc.o.Multi && n > 1 {
+		// multisig member list rewrites (not demanded by the property, counted only; see Relate)
+		rev := make([]int, n)
+		for i := range rev {
+			rev[i] = n - 1 - i
+		}
+		var first, last []int
+		for i := 0; i < n-1; i++ {
+			first = append(first, i)
+			last = append(last, i+1)
+		}
+		for k, order := range [][]int{rev, first, last} {
+			y := oc.l.RebuildMembers(x, order)
+			o, _ := r.try(oc, res, y, []string{"mal-members-reversed", "mal-last-member-dropped", "mal-first-member-dropped"}[k], oc.l.SigStart)
+			res.malTried++
+			if o.Accepted {
+				res.malAcc++
+				if !r.covered(oc, y) {
+					res.malAccNew++
+				}
+			} else {
+				res.malRej++
+			}
+		}
+	}
 	for i := range oc.l.Sigs {
 		v, rr, s := oc.l.VRS(x, i)
 		for _, m := range menuFor(v, rr, s) {
@@ -549,7 +583,7 @@ func Run(cfg Config) (*Stats, error) {
 		}
 		// (b) honest sender, plus an independent ECDSA verification of every honest signature
 		for _, v := range Honest(o, &oc.ref) {
-			f := &Finding{Kind: o.Kind, Rule: v.Rule, Edit: "none", Region: "sig", Name: o.Name, Original: hx(o.Bytes), Mutated: hx(o.Bytes), Detail: v.Detail}
+			f := &Finding{Kind: o.Kind, Rule: v.Rule, Edit: "none", Region: "sig", Name: o.Name, Original: hx(o.Bytes), Mutated: hx(o.Bytes), LockPub: hx(o.LockPub), Detail: v.Detail}
 			for _, s := range o.Signers {
 				f.Signers = append(f.Signers, s.String())
 			}
@@ -652,6 +686,7 @@ func Run(cfg Config) (*Stats, error) {
 		st.Panics += res.panics
 		st.ModelCanonRejected += res.modelCanonRej
 		st.Rebind += res.rebind
+		st.RebindMembers += res.rebindMembers
 		st.ShortStrings += res.shortN
 		st.ShortAccepted += res.shortAcc
 		st.PairEvaluations += res.pairEvals
@@ -687,6 +722,7 @@ func Run(cfg Config) (*Stats, error) {
 			po.MalleationsRejected += res.malRej
 			po.MalleationsAccepted += res.malAcc
 			po.Rebind += res.rebind
+			po.RebindMembers += res.rebindMembers
 		}
 		for _, sig := range res.order {
 			addF(res.findings[sig], res.count[sig])
@@ -701,4 +737,13 @@ func canonOf(kind string, b []byte) error {
 		return CanonicalCheck(b)
 	}
 	return CanonicalTx(b)
+}
+
+// Addrs formats addresses.
+func Addrs(a []types.Address) string {
+	var out []string
+	for _, x := range a {
+		out = append(out, x.String())
+	}
+	return strings.Join(out, ",")
 }
